@@ -51,6 +51,28 @@ Theorem C01_K_preserved_partial :
               K_b (apply_op s o) = true.
 Proof. exact K_preserved_partial. Qed.
 
+(* Pending propagation preserves K: Workflow.mark_step_pending with its mutual recursion through
+   mark_file_outdated (every BUILT output of the step becomes OUTDATED, every consumer of such a
+   file PENDING, and so on), in any state with unique step labels (a conjunct of C09's invariant)
+   where every file has at most one producing step edge, for any fuel that suffices. *)
+From SV Require Import proofs.NoStaleMark.
+
+Theorem C01_K_preserved_by_mark_step_pending :
+  forall l s s', unique_labels s -> single_producer s ->
+                 mark_step_pending l s = Ok s' -> K_b s = true -> K_b s' = true.
+Proof. exact K_mark_step_pending. Qed.
+
+Theorem C01_K_preserved_by_mark_consumers_pending :
+  forall f s s', unique_labels s -> single_producer s ->
+                 mark_consumers_pending f s = Ok s' -> K_b s = true -> K_b s' = true.
+Proof. exact K_mark_consumers_pending. Qed.
+
+(* the transaction of a changed environment variable at startup *)
+Theorem C01_K_preserved_by_OpMarkStepPending :
+  forall l s, unique_labels s -> single_producer s -> K_b s = true ->
+              K_b (apply_op s (OpMarkStepPending l)) = true.
+Proof. exact K_op_mark_step_pending. Qed.
+
 (* ------------------------------------------------------------------------------------------ *)
 (* Abstract engine (model/Engine.v): static-DAG fragment                                       *)
 (* ------------------------------------------------------------------------------------------ *)
